@@ -3,7 +3,7 @@
 (* trigger and the specific wrong observation.                                              *)
 EXTENDS Layout
 
-(* F-C02-1: positions the loader's walk never visits: entries of components.links, the       *)
+(* F-C02-1 (repaired): positions the loader's walk never visited: entries of components.links, the       *)
 (* `examples` of parameters and headers, the `headers` of media-type encodings.  The ref is  *)
 (* left unresolved (Value = nil), also when it is dangling.                                  *)
 UnvisitedSite(s) ==
@@ -32,7 +32,7 @@ PureCycle(u, s) ==
 Class(line, bad, badsites) ==
    LET u == line.c.u IN
    IF line.load # "ok" \/ badsites = <<>> THEN "none"
-   ELSE IF \A i \in DOMAIN badsites : UnvisitedSite(badsites[i]) THEN "unvisited_ref_site"
+   \* F-C02-1 is repaired (9986135, d78e043, 326f29b): UnvisitedSite no longer names a class
    ELSE IF \A i \in DOMAIN badsites : Conflated(u, badsites[i]) THEN "raw_ref_string_conflation"
    ELSE IF \A i \in DOMAIN badsites : PureCycle(u, badsites[i]) THEN "pure_ref_cycle_left_unresolved"
    ELSE "none"
